@@ -244,7 +244,8 @@ class _Optimizers(_Algorithm2D):
         # and now change back to original ordering
         if sort_weights:
             weight_array = _sort_array2d(weight_array, self._inverted_order)
-            constrained_weights = _sort_array2d(constrained_weights, self._inverted_order)
+        # the constrained edges were set in the sorted ordering even if no weights were input
+        constrained_weights = _sort_array2d(constrained_weights, self._inverted_order)
 
         params = {
             'weights': weight_array, 'constrained_weights': constrained_weights,
